@@ -791,6 +791,34 @@ fn run_b(sc: &Value) -> BOut {
     if d.transaction_id != m.transaction_id.0 {
         return out(Verdict::violated("decode.transaction_id", "transaction id differs", wit("tid", hex(&d.transaction_id), hex(&m.transaction_id.0))), true);
     }
+    // the reference keyed a MESSAGE-INTEGRITY (with or without a FINGERPRINT behind it): rustrtc's own
+    // verifier must accept it under that key on these very bytes, and refuse another key
+    if let Some(k) = key_bytes(&sc["mi"]) {
+        let fp = sc["fp"].as_bool().unwrap_or(false);
+        let ok = std::panic::catch_unwind(|| d.check_integrity(&bytes, &k)).unwrap_or(false);
+        if !ok {
+            return out(
+                Verdict::violated(
+                    format!("decode.check_integrity.rejects_reference_mi.fingerprint_follows={fp}"),
+                    "StunDecoded::check_integrity refuses a MESSAGE-INTEGRITY the reference computed under the same key",
+                    json!({"bytes": hex_cap(&bytes, 320), "fingerprint_follows": fp}),
+                ),
+                true,
+            );
+        }
+        let mut other = k.clone();
+        other.push(0x55);
+        if std::panic::catch_unwind(|| d.check_integrity(&bytes, &other)).unwrap_or(true) {
+            return out(
+                Verdict::violated(
+                    "decode.check_integrity.accepts_other_key".to_string(),
+                    "StunDecoded::check_integrity accepts a MESSAGE-INTEGRITY under a different key",
+                    json!({"bytes": hex_cap(&bytes, 320)}),
+                ),
+                true,
+            );
+        }
+    }
     // expected values: first and last occurrence per attribute kind
     let mut first: BTreeMap<&str, &Value> = BTreeMap::new();
     let mut last: BTreeMap<&str, &Value> = BTreeMap::new();
